@@ -348,6 +348,8 @@ def stored_obs(timeout):
             'I1': '=NA()', 'J1': '=I1=1', 'K1': '=ISNA(J1)', 'L1': '=ISERR(J1)', 'M1': '=ISERR(C1)', 'N1': '=ISNA(C1)'})
 
     def h(a: int, b: int) -> bool:
+        b = concretize(b, -2, 2)      # concrete denominators: z3 leaves x/0 uninterpreted
+        a = concretize(a, -3, 5)
         setv(M, 'Sheet1!A1', a)
         setv(M, 'Sheet1!A2', b)
         for c in 'BCDEFGHIJKLMN':
